@@ -1,6 +1,7 @@
 package node
 
 import (
+	"bytes"
 	"context"
 	"database/sql"
 	"fmt"
@@ -660,7 +661,11 @@ func (d *Pegnetd) SnapshotPayouts(tx *sql.Tx, fLog *log.Entry, rates map[fat2.PT
 	}
 
 	sort.Slice(list, func(i, j int) bool {
-		return list[i].PUSD < list[j].PUSD
+		if list[i].PUSD != list[j].PUSD {
+			return list[i].PUSD < list[j].PUSD
+		}
+		// equal stakes: the list was built from a map, so break the tie deterministically
+		return bytes.Compare(list[i].Address[:], list[j].Address[:]) < 0
 	})
 
 	// Calculate payouts
